@@ -32,7 +32,7 @@ from ..ref.offpolicy import OffNode, argmax_gap, check_node_buffer, dqn_referenc
 from ..world.mdp import SimMDP, comps_of, dummy_tables, gen_tables, np_obs_ids, obs_id, with_tables
 from ..world.observers import SpyCallback, SpyState
 from ..world.policy import SimPolicyState, SimQTable
-from .collect_on import build_env, replace_inner, set_time_limit, tl_count_of, _set_unwrapped_s
+from .collect_on import box_bounds, build_env, replace_inner, set_time_limit, tl_count_of, _set_unwrapped_s
 
 NAME = "offpolicy"
 PROPS = {"C05", "C06", "C07", "C10", "C12", "C19"}
@@ -307,7 +307,7 @@ class Runner:
         tr = res.trace
         env, policy, algo, cb = self._materialise(plan)
         self._cur_obs = np.asarray(plan["world"]["obs"])
-        mdp = RefMDP(self.kind, self.comps, plan["world"], time_limit=int(kn["time_limit"]) if self.has_tl else None)
+        mdp = RefMDP(self.kind, self.comps, plan["world"], *box_bounds(self.cls), time_limit=int(kn["time_limit"]) if self.has_tl else None)
         self._term_table = [bool(x) for x in plan["world"]["term"]]
         self._mdp = mdp
         gamma, alpha = float(kn["gamma"]), float(kn["alpha"])
